@@ -36,6 +36,7 @@ def run(ctx: Context) -> None:
     ctx.rule(r2_digitize)
     ctx.rule(dtype_rule)
     ctx.rule(r4_nearest)
+    ctx.rule(identity_keyed_cache)
 
 
 def r1_r3_get_closest(ctx: Context) -> None:
@@ -460,3 +461,40 @@ def dtype_rule(ctx: Context) -> None:
         ctx.fail("R4.dtype", f"{f.qualname.split(':')[1]}:inherited-dtype:{' '.join(src(node).split())[:50]}",
                  f"{what}: for integer or lower-precision input the value is silently truncated / rounded on assignment, so the result is no longer what the definition gives", f, node)
     ctx.ok("R4.dtype", "c17:scanned", f"{len(funcs)} functions: no computed value is stored into an array of inherited dtype")
+
+
+def identity_keyed_cache(ctx: Context) -> None:
+    """Snapping is a function of (values, grid): a memo of per-grid tables looked up by `id(grid)` is not - ids are reused once a grid is
+    garbage-collected, so a later search space can be snapped onto the tables of a dead one."""
+    n = 0
+    for f in ctx.prog.all_functions():
+        if f.module.name not in ("black_it.utils.base", "black_it.search_space"):
+            continue
+        n += 1
+        for c in calls_in(f.node, scope_only=False):
+            if (dotted(c.func) or "") != "id" or len(c.args) != 1:
+                continue
+            if not any(isinstance(x, ast.Name) and x.id in f.params for x in ast.walk(c.args[0])):
+                continue
+            # used as a key: subscript index, .get/.setdefault/.pop argument, membership test, or bound to a local used so
+            names = {c}
+            par = getattr(c, "_parent", None)
+            if isinstance(par, (ast.Assign, ast.AnnAssign, ast.NamedExpr)):
+                tg = par.targets[0] if isinstance(par, ast.Assign) else par.target
+                if isinstance(tg, ast.Name):
+                    names |= {x for x in ast.walk(f.node) if isinstance(x, ast.Name) and x.id == tg.id and isinstance(x.ctx, ast.Load)}
+            keyed = False
+            for k in names:
+                up = getattr(k, "_parent", None)
+                while isinstance(up, ast.Tuple):
+                    k, up = up, getattr(up, "_parent", None)
+                if isinstance(up, ast.Subscript) and up.slice is k:
+                    keyed = True
+                if isinstance(up, ast.Call) and isinstance(up.func, ast.Attribute) and up.func.attr in ("get", "setdefault", "pop") and up.args and up.args[0] is k:
+                    keyed = True
+                if isinstance(up, ast.Compare) and any(isinstance(o, (ast.In, ast.NotIn)) for o in up.ops) and up.left is k:
+                    keyed = True
+            ctx.check(not keyed, "R5.identity-cache", f"{f.qualname.split(':')[1]}:id-key:{src(c.args[0])[:30]}", "no table is looked up by the identity of an argument",
+                      f"`{src(c)}` is used as a look-up key in {f.name}: the identity of a grid that was garbage-collected is reused by later objects, so a later grid can be served "
+                      "the tables cached for a dead one - the result then is not an element of the grid that was passed", f, c)
+    ctx.ok("R5.identity-cache", "snapping:scanned", f"{n} functions of utils.base / search_space scanned for identity-keyed look-ups")
